@@ -241,4 +241,43 @@ def classify (t : Str) : Tok Str :=
 
 def lexLine (s : Str) : Line Str := (splitBlank s).map classify
 
+/-- E-notation test of the value numerals = the reader's regular expression on their text -/
+def eNotStr : Str → Bool := matchE
+
+/-- how the specification prints a token line: the solver ends numeric lines with a blank (`trail`), name lines
+    have none -/
+def printLine (trail : Bool) (l : Line Str) : Str := lineText (trail && !isName l) l
+
+/-- the characters of a result file: every line terminated by a newline -/
+def fileText (trail : Bool) (ls : List (Line Str)) : Str := unlines (ls.map (printLine trail))
+
+/-- the characters of a file as the reader sees them: the lines `StringSeries.read_file` delivers, lexed at whitespace -/
+def lexFile (s : Str) : List (Line Str) := (fileLines s).map lexLine
+
+/-- `_read_res` on the characters of the file -/
+def readResText (s : Str) (nNodes nElems : Nat) : Option (ResFile Str) :=
+  readRes eNotStr (lexFile s) nNodes nElems
+
+/-! ### hypotheses of the character-level theorems as Boolean functions (the driver evaluates them on every case) -/
+/-- a name / keyword: non-empty, no whitespace, starts with a letter or `*` -/
+def wordOKB (s : Str) : Bool := tokOKB s && (match s with | c :: _ => isAlphaStar c | [] => false)
+/-- a value numeral: non-empty, no whitespace, not a decimal integer, does not start with a letter or `*` -/
+def valOKB (x : Str) : Bool :=
+  tokOKB x && (Numeral.parseNat x).isNone && (match x with | c :: _ => !isAlphaStar c | [] => false)
+def resTokOKB : Tok Str → Bool
+  | .n _ => true
+  | .v x => valOKB x
+  | .w s => wordOKB s
+def secOKB (s : Sec Str) : Bool := s.vars.all (fun x => wordOKB x.name) && s.rows.all (fun r => r.2.all valOKB)
+def fileOKB (f : ResFile Str) : Bool :=
+  secOKB f.nodal && (match f.elemental with | none => true | some e => secOKB e)
+/-- a line that prints to a non-empty text without newline: at least one token, every token non-empty and free of
+    whitespace -/
+def printableB (l : Line Str) : Bool := !l.isEmpty && l.all fun t => tokOKB (showTok t)
+/-- the free header fields of the 2.0 layout (comment, time line) print to one line each -/
+def hdrOKB (L : Layout) (comment : Str) (time : Line Str) : Bool :=
+  match L with
+  | .old => true
+  | .v2 => tokOKB comment && printableB time
+
 end Femio.C02
